@@ -5,20 +5,17 @@
    spec: on texts in the domain the reference interpreter sm_denote is matched by the implementation's result;
    wf:   the text is in the theorem's domain whenever the generator says it should be. *)
 From Coq Require Import String ZArith QArith Qround Qabs List Bool.
-From RV Require Export Corr.RunSM.
+From RV Require Export Corr.RunSM Formats.SMReadDom.
 Import ListNotations.
 Open Scope Q_scope.
 
 Inductive c02case :=
 | C02Read (dom : bool) (cmpb : bool) (tol : Q) (lines : list text) (idx : list Z) (out : option smset).
 
-Definition c02_wf (txt : text) : bool :=
-  match sm_denote txt with
-  | Some d => c02_dom d && dialect_ok txt d
-              (* the file's tempo script lies in the domain of C10's closed form (hypothesis of C02_read_times_integrate) *)
-              && domainb Tables.snapper_table (map (fun tp : Q * Q * Q => mkBcs (snd (fst tp)) 4 (snap_of_beat (fst (fst tp)))) (d_tempo d)) []
-  | None => false
-  end.
+(* wf = THE domain of the whole-file theorem Props/C02.v : C02_sm_read_denotes (Formats/SMReadDom.v): well formed for the
+   reference semantics, rows a multiple of 4, tempo beats distinct on the 1/48 grid, reader dialect, header items.
+   (The C10 timing domain `domainb` is no longer part of wf: it is derived from the 1/48 grid in the proof.) *)
+Definition c02_wf (txt : text) : bool := c02_domb txt.
 
 Definition check (c : c02case) : verdict :=
   match c with
